@@ -22,6 +22,7 @@ mod wb;
 mod c02;
 mod c03;
 mod c05;
+mod c05_codec;
 mod c06;
 mod c06_view;
 mod c06codec;
